@@ -5,6 +5,8 @@ import json
 import re
 import sys
 
+from . import cpy
+
 _ADDR = re.compile(r"0x[0-9a-fA-F]+")
 
 
@@ -17,16 +19,52 @@ V = sys.version_info[:2]
 VER = "%d%d" % V
 
 
+class _Budget(BaseException):
+    """the traced program used up its event budget or its wall-clock guard (it does not terminate)"""
+
+
+def well_formed(code):
+    """every jump of every nested code object lands on the first unit of an instruction and every operand is inside
+    its table (dis can list it): code that fails this is not executed (it could crash the interpreter)"""
+    import dis
+    import types
+
+    try:
+        for _, c in cpy.all_codes(code):
+            starts = set()
+            st = None
+            ins = list(dis.get_instructions(c))
+            for i in ins:
+                if st is None:
+                    st = i.offset
+                if i.opcode != dis.EXTENDED_ARG:
+                    starts.add(st)
+                    st = None
+            for i in ins:
+                if i.opcode in dis.hasjabs or i.opcode in dis.hasjrel:
+                    if i.argval not in starts:
+                        return "jump to offset %d, which is not the start of an instruction, in %s" % (i.argval, c.co_name)
+    except BaseException as ex:  # noqa
+        return "unreadable: %s" % type(ex).__name__
+    return ""
+
+
 def observe(code, calls, max_events=5000):
     """exec module code in a fresh namespace, then call f(*args) for every args in calls"""
+    import signal
+
     events = []
     out = io.StringIO()
+
+    def alarm(signum, frame):
+        raise _Budget("wall clock")
 
     def tracer(frame, event, arg):
         if frame.f_code.co_filename != "<prog>":
             return None
         if len(events) >= max_events:
-            return None
+            events.append(["BUDGET"])
+            raise _Budget("events")
         if event == "line":
             events.append(["L", frame.f_code.co_name, frame.f_lineno])
         elif event == "return":
@@ -41,11 +79,15 @@ def observe(code, calls, max_events=5000):
     ns = {"__name__": "prog"}
     old_out = sys.stdout
     sys.stdout = out
+    old_alarm = signal.signal(signal.SIGALRM, alarm)
+    signal.setitimer(signal.ITIMER_REAL, 30)
     sys.settrace(tracer)
     try:
         try:
             exec(code, ns)
             results.append(["module", "ok"])
+        except _Budget:
+            raise
         except BaseException as e:  # noqa
             results.append(["module", "exc", type(e).__name__, _ADDR.sub("0x?", str(e))[:100]])
         f = ns.get("f")
@@ -56,10 +98,16 @@ def observe(code, calls, max_events=5000):
                     if hasattr(r, "__next__"):
                         r = list(r)
                     results.append(["call", _r(r, 300)])
+                except _Budget:
+                    raise
                 except BaseException as e:  # noqa
                     results.append(["call", "exc", type(e).__name__, _ADDR.sub("0x?", str(e))[:100]])
+    except _Budget:
+        results.append(["budget"])
     finally:
         sys.settrace(None)
+        signal.setitimer(signal.ITIMER_REAL, 0)
+        signal.signal(signal.SIGALRM, old_alarm)
         sys.stdout = old_out
     return {"events": events, "results": results, "out": out.getvalue()[:2000]}
 
@@ -83,6 +131,11 @@ def programs_to_file(programs, path, calls=((1, 2), (2, 0), (3, 3))):
         except BaseException as ex:  # noqa
             e["norm_exc"] = "%s: %s" % (type(ex).__name__, ex)
             code2 = None
+        if code2 is not None:
+            bad2 = well_formed(code2)
+            if bad2 and not well_formed(code):
+                e["norm_exc"] = "not executed: " + bad2
+                code2 = None
         o2 = observe(code2, calls) if code2 is not None else {"events": [], "results": [], "out": ""}
         e["a"] = o1
         e["b"] = o2
